@@ -290,6 +290,7 @@ func opDiskFind(f []string) string {
 		o.Add("exist", "1")
 		o.Add("strictok", "1")
 		o.Add("again", xAgain(real, st))
+		o.Add("all", "-")
 		return o.String()
 	}
 	o.Add("found", "1")
@@ -325,6 +326,17 @@ func opDiskFind(f []string) string {
 	o.Add("exist", showBool(exist))
 	o.Add("strictok", showBool(strictok))
 	o.Add("again", xAgain(real, st))
+	// every frame path of the result, in byte order (completeness: with one digit width on disk
+	// these are all the files <basename><frame number><ext>)
+	if mixed {
+		// which width group comes first depends on map order: no exact prediction
+	} else if s.Len() <= 3000 {
+		sorted := append([]string(nil), cps...)
+		sort.Strings(sorted)
+		o.Add("all", hexList(sorted))
+	} else {
+		o.Add("all", "big")
+	}
 	return o.String()
 }
 
@@ -497,6 +509,38 @@ func genDiskFind(r *Rand, n int, thorough bool, emit func(string)) {
 		if r.Chance(1, 20) {
 			dir = "/T/nope/"
 			dirok = "0"
+		}
+		if r.Chance(1, 4) {
+			// a uniformly padded target sequence among siblings that are no frames of it: the
+			// completeness clause applies (every file <base><frame><ext> must be returned)
+			ents = nil
+			w := r.Range(1, 5)
+			seen := map[string]bool{}
+			lim := 1
+			for d := 0; d < w; d++ {
+				lim *= 10
+			}
+			for k := r.Range(1, 7); k > 0; k-- {
+				v := r.Range(0, 300) % lim
+				nm := fmt.Sprintf("%s%0*d%s", base, w, v, ext)
+				if w >= 2 && r.Chance(1, 6) && v > 0 && v < lim/10 {
+					nm = fmt.Sprintf("%s-%0*d%s", base, w-1, v, ext)
+				}
+				if !seen[nm] {
+					seen[nm] = true
+					ents = append(ents, entry{nm, "fl"[r.Intn(2)]})
+				}
+			}
+			for _, sib := range []string{base + ext, base + "x" + ext, "notes.txt", "sub", "." + base + "7" + ext, base + "1-5" + ext, base + "+3" + ext} {
+				if r.Chance(1, 3) && !seen[sib] && sib != "" {
+					seen[sib] = true
+					k := byte('f')
+					if sib == "sub" {
+						k = 'd'
+					}
+					ents = append(ents, entry{sib, k})
+				}
+			}
 		}
 		pat := dir + base + r.Pick(pads) + ext
 		if r.Chance(1, 25) {
